@@ -267,10 +267,17 @@ def walk_paths(fn, valuation, norm, stop_pred=None, limit=64):
     return out
 
 
+NONNULL_NAMES = set()      # global names a rule knows to denote objects (classes / functions of the analysed module)
+
+
 def _never_none(e):
-    """`<call or literal> is None` is False, `... is not None` is True (results of constructors / numpy calls are objects)"""
+    """`<call or literal> is None` is False, `... is not None` is True (results of constructors / numpy calls are objects); `None is None` is True"""
     if isinstance(e, ast.Compare) and len(e.ops) == 1 and isinstance(e.ops[0], (ast.Is, ast.IsNot)) \
-            and isinstance(e.comparators[0], ast.Constant) and e.comparators[0].value is None \
-            and isinstance(e.left, (ast.Call, ast.List, ast.Tuple, ast.Dict, ast.BinOp, ast.ListComp, ast.DictComp)):
-        return isinstance(e.ops[0], ast.IsNot)
+            and isinstance(e.comparators[0], ast.Constant) and e.comparators[0].value is None:
+        if isinstance(e.left, (ast.Call, ast.List, ast.Tuple, ast.Dict, ast.BinOp, ast.ListComp, ast.DictComp, ast.Lambda)) \
+                or (isinstance(e.left, ast.Name) and e.left.id in NONNULL_NAMES) \
+                or (isinstance(e.left, ast.Constant) and e.left.value is not None):
+            return isinstance(e.ops[0], ast.IsNot)
+        if isinstance(e.left, ast.Constant) and e.left.value is None:
+            return isinstance(e.ops[0], ast.Is)
     return None
